@@ -129,6 +129,11 @@ func TrueUnderlying [C14, C03]
   decreases rank(t)
   ensures result == tnorm(t)
 
+// class of a type: 1 Zahl, 2 Kommazahl, 3 Byte, 4 Wahrheitswert, 5 Buchstabe, 6 Text, 0 anything else (aliases are transparent)
+spec clsOf(ty Type) int :=
+  norm(ty) == ZAHL ? 1 : (norm(ty) == KOMMAZAHL ? 2 : (norm(ty) == BYTE ? 3 :
+  (norm(ty) == WAHRHEITSWERT ? 4 : (norm(ty) == BUCHSTABE ? 5 : (norm(ty) == TEXT ? 6 : 0)))))
+
 // ---- the laws of the C14 statement, proved from the contracts above ----
 lemma L_refl [C14]:  forall a Type :: Equal(a, a)
 lemma L_sym [C14]:   forall a, b Type :: Equal(a, b) ==> Equal(b, a)
